@@ -280,3 +280,15 @@ impl<'w, 's, T: Send + Sync + 'static> EntityEvent<'w, 's, T>
 }
 
 //-------------------------------------------------------------------------------------------------------------------
+
+#[cfg(feature = "verif")]
+impl EventAccessTracker
+{
+    /// Returns (number of prepared entries, currently reacting).
+    pub(crate) fn verif_state(&self) -> (usize, bool)
+    {
+        (self.prepared.len(), self.currently_reacting)
+    }
+}
+
+//-------------------------------------------------------------------------------------------------------------------
